@@ -15,6 +15,7 @@ package sdf
 
 import (
 	"fmt"
+	"sync"
 
 	v2 "github.com/deadsy/sdfx/vec/v2"
 )
@@ -26,6 +27,7 @@ type CacheSDF2 struct {
 	sdf         SDF2
 	cache       map[v2.Vec]float64
 	reads, hits uint
+	lock        sync.Mutex // renderers evaluate a shape from several goroutines
 }
 
 // Cache2D wraps the passed SDF2 with an evaluation cache.
@@ -37,19 +39,26 @@ func Cache2D(sdf SDF2) SDF2 {
 }
 
 func (s *CacheSDF2) String() string {
+	s.lock.Lock()
+	defer s.lock.Unlock()
 	r := float64(s.hits) / float64(s.reads)
 	return fmt.Sprintf("reads %d hits %d (%.2f)", s.reads, s.hits, r)
 }
 
 // Evaluate returns the minimum distance to a cached 2d sdf.
 func (s *CacheSDF2) Evaluate(p v2.Vec) float64 {
+	s.lock.Lock()
 	s.reads++
 	if d, ok := s.cache[p]; ok {
 		s.hits++
+		s.lock.Unlock()
 		return d
 	}
+	s.lock.Unlock()
 	d := s.sdf.Evaluate(p)
+	s.lock.Lock()
 	s.cache[p] = d
+	s.lock.Unlock()
 	return d
 }
 
